@@ -29,7 +29,7 @@ def install(ctx):
 def cases(ctx):
     rng = ctx.rng
     for i in range(ctx.n(1400, 5000)):
-        mode = str(rng.choice(["perm", "gauss", "separated", "inverted", "ties", "touching", "ulp", "tiny", "uint", "int8wide", "mixed", "huge", "subnormal", "negzero", "clustered", "clustered", "manyeasy", "manyeasy", "manyeasy"]))
+        mode = str(rng.choice(["perm", "gauss", "separated", "inverted", "ties", "touching", "ulp", "tiny", "uint", "int8wide", "mixed", "huge", "huge", "subnormal", "negzero", "clustered", "clustered", "manyeasy", "manyeasy", "manyeasy"]))
         npos = int(rng.integers(1, 26))
         nneg = int(rng.integers(1, 26))
         if mode == "tiny":
@@ -64,6 +64,12 @@ def cases(ctx):
             low = np.concatenate([[lo], lo - 1.0 - rng.uniform(0, 1, k1)])
             high = np.concatenate([[hi], hi + 1.0 + rng.uniform(0, 1, k2)])
             pos, neg = (high, low) if rng.random() < 0.5 else (low, high)
+        if mode == "manyeasy" and rng.random() < 0.6:
+            # an outlier (a saturated score): one score gap is 1e4..1e6 times the others, so the threshold is steep in the rate there
+            pos, neg = np.asarray(pos, dtype=float).copy(), np.asarray(neg, dtype=float).copy()
+            span_ = float(np.ptp(np.concatenate([pos, neg]))) or 1.0
+            arr = pos if rng.random() < 0.5 else neg
+            arr[int(rng.integers(0, len(arr)))] = float(rng.choice([-1.0, 1.0])) * span_ * float(rng.choice([1e4, 1e5, 1e6]))
         ep, en = gen.easy(rng)
         if mode == "manyeasy":  # a handful of hard scores beside up to billions of easy ones: one sample is 1e-10 of the rate scale
             ep, en = (int(x) for x in rng.choice([0, 10 ** 8, 10 ** 9, 3 * 10 ** 9, 10 ** 10, 10 ** 11, 10 ** 12], 2))
